@@ -3,6 +3,10 @@ HOOK_COMMITS = []
 NOTES = "See DESIGN.md. Known findings / fixed defects: known_findings.json."
 NOT_BUILT = {}
 BUILT = {
+ "C08": dict(
+   text="Coq theorems (no_double_delivery, delivered_succeeded, submissions_bounded, never_crashes, raise_is_genuine, done_exactly_once, futures_bounded, wake_progress, retry_*) proved by invariant over a Gallina step-function model of async_map_unordered for every script of completions / iteration orders / backup-policy answers / batch sizes; the model is tied to /repo by replaying, inside Coq, the choices recorded while the REAL async_map_unordered runs under a scripted discrete-event simulation (asyncio.wait, time and the backup policy shimmed), plus the real tenacity wrapper and an end-to-end fault-injecting store under the threads executor",
+   note="partial: a future that completes between asyncio.wait returning and the loop inspecting its twin is not in the model (benign by the same invariant); real thread timing is only exercised end to end; liveness is 'every effective wake-up consumes one of at most 2n futures', a never-completing future is outside the statement",
+   technique="Rocq invariant proof over step-function model + refinement replay of the real coroutine under scripted futures"),
  "C15": dict(
    text="Coq theorem fusion_sound (all key functions, all block functions, any nesting depth by iteration) and blockwise_kf_spec over a Gallina model of make_blockwise_back_key_function_flattened / fuse_blockwise_specs; the model is tied to /repo by evaluating it (vm_compute) on the same generated index expressions and fusion trees as the real functions",
    note="partial: the theorem is about the hand-written model; the tie to the code is differential (generated expressions, all output coordinates; fusion trees depth<=3 with provenance terms). Multi-output generator functions are not modelled.",
